@@ -236,19 +236,20 @@ class Exec:
         if outside_mut:
             self._fail(f"writes-outside-output-dir:{via}", f"events: {outside_mut[:5]}")
         touched_cache = False
+        flag_ignored = []  # type: List[str]
         if not cache:
             if before != after:
                 touched_cache = True
                 changed = sorted(set(after.items()) ^ set(before.items()))[:4]
-                self._fail(f"cache-flag-ignored:{via}:write", f"cache=off run changed TMPDIR: {changed}")
+                flag_ignored.append(f"write: cache=off run changed TMPDIR: {changed}")
             reads = [e for e in in_tmp if e[0] == "open-r"]
             other = [e for e in in_tmp if e[0] != "open-r" and e[0] != "listdir"]
             if reads:
                 touched_cache = True
-                self._fail(f"cache-flag-ignored:{via}:read", f"cache=off run opened {[os.path.basename(e[1]) for e in reads][:3]}")
+                flag_ignored.append(f"read: cache=off run opened {[os.path.basename(e[1]) for e in reads][:3]}")
             if other and before == after:
                 touched_cache = True
-                self._fail(f"cache-flag-ignored:{via}:write", f"cache=off run issued {other[:4]} inside TMPDIR")
+                flag_ignored.append(f"write: cache=off run issued {other[:4]} inside TMPDIR")
         else:
             accepted = ref[0] == 0 or (isinstance(ref[0], int) and not ref[2].startswith(FRONT_END_ERRORS))
             if isinstance(ref[0], str):
@@ -272,11 +273,14 @@ class Exec:
             detail = f"got status={got[0]!r} stderr={got[2][:300]!r}\nref status={ref[0]!r} stderr={ref[2][:300]!r}"
             state = "warm" if entry in before_names else "cold"
             if not cache and (touched_cache or entry in before_names):
-                self._fail(f"cache-flag-ignored:{via}:result-taken-from-cache", f"differs in {aspects}\n{detail}")
+                flag_ignored.append(f"result taken from the cache: differs in {aspects}\n{detail}")
             elif self.tampered.get(h) not in (None, h) and entry in before_names:
                 self._fail("foreign-entry-used", f"entry {entry} held the dump of another text; differs in {aspects}\n{detail}")
             else:
                 self._fail(f"result-differs:cache-{'on' if cache else 'off'}:{state}:{'+'.join(aspects)}", detail)
+        if flag_ignored:
+            # one root cause (the flag does not reach the loader), one bucket per entry point
+            self._fail(f"cache-flag-ignored:{via}", "\n".join(flag_ignored))
         # what the entry holds after this run
         if entry in after_names and (entry not in before_names or after.get(self._rel(entry)) != before.get(self._rel(entry))):
             self.tampered[h] = h
